@@ -42,13 +42,13 @@ CHECKS = {
    text="Exploration: an honest node emitting a vote/timeout/proposal for round r>1 must have been shown a valid QC/TC of round >= r-1 or quorum votes/timeouts to assemble one; per link the acting round never decreases; first emissions of its own proposals have increasing rounds; each timeout's QC is at least the QC of blocks voted earlier and of earlier timeouts on that link and below the timeout's round.",
    note="Cross-connection orders are not compared."),
  "C11": dict(ref="5/C11", tech="deterministic simulation in two builds (default and benchmark feature) + seeded size/timing search; conservation, order, seal-rule and content-addressing monitors on wire and store tap",
-   text="Exploration in both build configurations: transactions of sizes 0,1,8,9,batch_size-1,batch_size,batch_size+1,multiples, with arrival gaps around the seal timer, must be released exactly once, in per-connection order, batches sealed by size or within max_batch_delay, every batch stored under SHA-512/256 of its exact bytes and proposed under that digest.",
+   text="Exploration in both build configurations: transactions of sizes 0,1,8,9,batch_size-1,batch_size,batch_size+1,multiples, with arrival gaps around the seal timer, must be released exactly once, in per-connection order, batches sealed by size or within max_batch_delay, every batch stored under SHA-512/256 of its exact bytes and proposed under that digest; every batch frame a node receives (including harness-sent batches with trailing bytes, a non-canonical encoding) must be in its store under the hash of exactly the received bytes.",
    note="Found and repaired a genuine defect in the benchmark build (see known_findings.json). Empty transactions are attributed by count only."),
  "C12": dict(ref="5/C12", tech="deterministic simulation + seeded ACK-delay/mute/stake search; ACK-pairing tap versus store-write and proposal instants",
    text="Exploration: when a node's store applies the write of its own batch, and when it proposes its digest, the peers whose acknowledgement frames (paired per connection with the batch frame) had been written by then, plus the node, must hold a quorum of stake (computed independently).",
    note="'Sent by the peer' is earlier than 'received by the node' (permissive direction). One known finding (own batch re-entering via a peer) is reported as KNOWN-FINDING."),
  "C13": dict(ref="5/C13", tech="deterministic simulation + seeded load/missed-broadcast search; end-to-end monitor at a bounded deadline",
-   text="Exploration with bounded liveness: without crashes or view-change faults, every transaction submitted before the load ends must be in a batch referenced by a block committed by every node, with the batch bytes stored by each, by load end + 1 s + 3 x (sync_retry_delay + 8 s); nodes whose mempool links are cut miss broadcasts and must fetch the batches; 30% of the scenarios add a burst of 40-100 n single-transaction batches within 1-60 ms (blocks with far more than 32 digests).",
+   text="Exploration with bounded liveness: without crashes or view-change faults, every transaction submitted before the load ends must be in a batch referenced by a block committed by every node, with the batch bytes stored by each, by load end + 1 s + 3 x (sync_retry_delay + 8 s); nodes whose mempool links are cut miss broadcasts and must fetch the batches; 25% add a one-way cut for the rest of the run (all peers but one or two cannot reach one node's mempool port, sync_retry_nodes 1..n-2); 30% of the scenarios add a burst of 40-100 n single-transaction batches within 1-60 ms (blocks with far more than 32 digests).",
    note="Required probes ensure batch requests and helper replies actually occurred."),
  "C19": dict(ref="5/C19", tech="deterministic simulation + seeded fault/schedule search; independent certificate checker on every emitted QC/TC",
    text="Exploration: every QC and TC an honest node emits (in proposals, timeouts, TC broadcasts) is re-verified independently (distinct members, quorum stake, every signature valid for one (block, round) resp. (round, high-QC round)); no TC is sent twice to a peer.",
